@@ -4,6 +4,7 @@ import (
 	"errors"
 	"net"
 	"os"
+	"sync"
 	"time"
 )
 
@@ -84,6 +85,19 @@ func vhNativeServe(s *Server, conns []*vhConn) {
 		}
 	}
 	vhTheListener = &vhListener{conns: ordered, closed: make(chan struct{})}
+	var fwg sync.WaitGroup
+	if vhFlusher {
+		// the real background flusher as one more scheduled thread (its first pass runs at once; it gives the
+		// token back whenever it goes to sleep)
+		fwg.Add(1)
+		fid := len(conns)
+		go func() {
+			vregisterThread(fid)
+			vgateAs(fid, "start")
+			s.backgroundSyncAOF(&fwg)
+			vthreadEnd()
+		}()
+	}
 	done := make(chan struct{})
 	go func() {
 		s.netServe()
@@ -105,6 +119,7 @@ func vhNativeServe(s *Server, conns []*vhConn) {
 	s.stopServer.Store(true)
 	vhTheListener.Close()
 	<-done
+	fwg.Wait()
 	name := s.aof.Name()
 	s.aof.Close()
 	os.Remove(name)
@@ -129,3 +144,9 @@ func vhSpinAdd(l *rwspinlock, d int32) int32 {
 	return l.state.Add(d)
 }
 func vhSpinGosched() { vwait() }
+
+// the flusher's loop sleeps between passes: the scheduled thread has no further operation until it wakes up
+func vhLoopSleep(d time.Duration) {
+	vthreadEnd()
+	time.Sleep(d)
+}
